@@ -7,7 +7,7 @@
    derived state with their incremental update rules and their re-initialisation from storage ([reinit]).
    The governance theorems are for the REPAIRED code (flags fix_block_dirty: finding F7, fix_gpv_drop: finding F23);
    for each unrepaired behaviour a counter-example history is proved. *)
-From NG Require Import Common.Tactics Tokens.Model Tokens.Inv Tokens.OpProofs Node.Layers Node.Gov Node.GovProofs Node.Restart Node.Witness Node.C01Theorems Tokens.Names Auth.Permission Auth.PermStore.
+From NG Require Import Common.Tactics Tokens.Model Tokens.Inv Tokens.OpProofs Node.Layers Node.FlushFail Node.Gov Node.GovProofs Node.Restart Node.Witness Node.C01Theorems Tokens.Names Auth.Permission Auth.PermStore.
 Open Scope Z_scope.
 
 (* a flush of any number of layers at any time changes no answer of the node *)
@@ -163,6 +163,46 @@ Theorem C01_manifest_empty_methods_as_wildcard_refuted :
      <> can_call (mc_perms (load_bug (aget ms0 (caddr 2) (mg_store (X st))))) mgmt_callee m_update.
 Proof. exact manifest_empty_methods_as_wildcard_refuted. Qed.
 Print Assumptions C01_manifest_empty_methods_as_wildcard_refuted.
+
+(* Flushes that FAIL (Node/FlushFail.v: the write cache as one map, the batch of a flush in progress between it and the
+   database, blocks added meanwhile).  A persist whose write fails puts the batch back UNDER whatever the cache received
+   meanwhile (maps.Copy(tempstore.mem, s.mem)): for EVERY such map -- any keys, values and deletions, overlapping the
+   batch or not, more or fewer entries than it -- no answer changes and the database is what it was *)
+Theorem C01_failed_flush_transparent : forall (K V R : Type) (n : fnode K V R),
+  (forall k, fview K V R (f_end_fail K V R n) k = fview K V R n k) /\ fdb K V R (f_end_fail K V R n) = fdb K V R n.
+Proof. exact (fun K V R n => conj (failed_flush_transparent K V R n) (failed_flush_keeps_db K V R n)). Qed.
+Print Assumptions C01_failed_flush_transparent.
+
+(* a node under ANY schedule of blocks, begun / succeeded / failed flushes (any number of failures in a row, blocks
+   between begin and end), prunings and restarts agrees on every state key and every execution result with every
+   replica of Node/Layers.v fed the same blocks under any schedule of its own *)
+Theorem C01_failed_flushes_replicas_agree : forall (K V B R : Type) (is_hist : K -> bool) (exec : store K V -> B -> overlay K V * R),
+  (forall a b blk, state_eq K V is_hist a b -> exec a blk = exec b blk) ->
+  forall (s0 : store K V) (es : list (fevent K B)) (es' : list (event K B)),
+  f_blocks K B es = blocks_of K B es' ->
+  let n := f_run K V B R is_hist exec (f_start K V R s0) es in
+  let m := run K V B R is_hist exec (mkNode K V R s0 [] 0 []) es' in
+  state_eq K V is_hist (fview K V R n) (view K V R m) /\ fresults K V R n = results K V R m.
+Proof. exact faulty_node_agrees_with_replica. Qed.
+Print Assumptions C01_failed_flushes_replicas_agree.
+
+(* the merge matters: on the state w_node (database {2:9}; batch in flight 0:=1, 2:=1; meanwhile 0:=7, 2 deleted, 1:=5)
+   the code's merge keeps 0 -> 7 and 2 -> absent, while "older wins" and "the bigger map is the target" (the newer map
+   is the bigger one here) answer 0 -> 1, "batch dropped" loses 0 -> 1 when nothing was written meanwhile, and
+   "newer deletions lost" resurrects 2 -> 1 *)
+Theorem C01_failed_flush_wrong_merges_refuted :
+  (fview nat nat unit (f_end_fail nat nat unit w_node) 0 = fview nat nat unit w_node 0
+  /\ fview nat nat unit (f_end_fail nat nat unit w_node) 2 = None
+  /\ fview nat nat unit w_node 0 = Some 7 /\ fview nat nat unit w_node 2 = None
+  /\ fview nat nat unit (f_end_fail_with nat nat unit over_swapped w_node) 0 = Some 1
+  /\ fview nat nat unit (f_end_fail_with nat nat unit over_bigger_target w_node) 0 = Some 1
+  /\ (osize w_batch < osize w_newer)
+  /\ fview nat nat unit (f_end_fail_with nat nat unit over_dropped w_node) 2 = None
+  /\ fview nat nat unit (f_end_fail_with nat nat unit over_dropped (mkF nat nat unit w_db (Some w_batch) (no_writes nat nat) 3 [])) 0 = None
+  /\ fview nat nat unit (mkF nat nat unit w_db (Some w_batch) (no_writes nat nat) 3 []) 0 = Some 1
+  /\ fview nat nat unit (f_end_fail_with nat nat unit over_no_tombstones w_node) 2 = Some 1)%nat.
+Proof. exact wrong_merges_refuted. Qed.
+Print Assumptions C01_failed_flush_wrong_merges_refuted.
 
 (* non-vacuity: the hypotheses of C01_cache_coherent hold for a concrete configuration and history (the F7 and F23
    histories on the repaired settings), where the committee was elected and changes *)
